@@ -11,8 +11,8 @@ from . import recipes as R
 from .recipes import Cast, TEMPLATES, add_step, eager_step, containers_of
 
 PROPERTY = 'C09'
-BOUNDS = ("Baked recipe programs of 1-2 steps (quick: all 1-step and 70 seeded 2-step programs; thorough: all "
-          "2-step and 300 seeded 3-step programs) over the 19 step templates of C08 with symbolic quantities; stage "
+BOUNDS = ("Baked recipe programs of 1-2 steps (quick: all 1-step programs and every 2-step program whose steps share an object; thorough: all "
+          "2-step and 300 seeded 3-step programs) over the 21 step templates of C08 with symbolic quantities; stage "
           "partition: stage s1 = the first k steps, s2 = the rest, for every split point k; queries for water and NaCl "
           "(thorough: + DMSO, never used) in umol, mg (thorough: + mmol, uL, g), timeframes all / s1 / s2, destination "
           "sets: default ('plates'), every single used object, the set of all used objects, and one pair. Oracle: "
@@ -32,8 +32,7 @@ def cells(tier, seed):
     p1 = [p for p in R.programs(1)]
     p2 = [p for p in R.programs(2) if len(p) == 2]
     if tier == 'quick':
-        rng.shuffle(p2)
-        p2 = p2[:70]
+        p2 = [p for p in p2 if R.interacting(p)]       # steps sharing an object; independent pairs: thorough tier
         progs = p1 + p2
         units = ['umol', 'mg']
         subs = ['water', 'NaCl']
@@ -49,13 +48,14 @@ def cells(tier, seed):
                 continue
             if tier == 'quick' and len(prog) == 1 and k != 1:
                 continue
-            for sub in subs:
-                for unit in units:
-                    if tier == 'quick' and (sub, unit) not in (('water', 'umol'), ('NaCl', 'mg')):
-                        continue
-                    out.append({'id': f"prog/{','.join(prog)}/k{k}/{sub}/{unit}", 'fn': 'h_used', 'round': 'lite',
-                                'max_paths': 400, 'cost': 2 ** len(prog), 'gens': 112,
-                                'params': {'prog': list(prog), 'split': k, 'sub': sub, 'unit': unit}})
+            if tier == 'quick':
+                combos = [[('water', 'umol'), ('NaCl', 'mg')]]       # one exploration of the program serves both queries
+            else:
+                combos = [[(sub, unit) for unit in units[i::2]] for sub in subs for i in (0, 1)]
+            for ci, combo in enumerate(combos):
+                out.append({'id': f"prog/{','.join(prog)}/k{k}/q{ci}", 'fn': 'h_used', 'round': 'lite',
+                            'max_paths': 400, 'cost': 2 ** len(prog), 'gens': 160,
+                            'params': {'prog': list(prog), 'split': k, 'queries': [list(x) for x in combo]}})
     return out
 
 
@@ -117,9 +117,13 @@ def h_used(h):
         return
     rec, cast, objects, states, discards = out
     h.outcome = 'ok'
+    for sub_name, unit in p['queries']:
+        _queries(h, p, prog, split, rec, cast, objects, states, discards, sub_name, unit)
+
+
+def _queries(h, p, prog, split, rec, cast, objects, states, discards, sub_name, unit):
     lib = cast.lib
-    s = lib[p['sub']]
-    unit = p['unit']
+    s = lib[sub_name]
     prefix, base = split_unit(unit)
     prec = h.env.config.precisions.get(unit, h.env.config.precisions['default'])
     half = Fr(1, 2 * 10**prec)
@@ -147,7 +151,7 @@ def h_used(h):
             for i in range(a, b):
                 ledger = ledger + discards[i].get(s, 0)
             truth = lib.amount(s, ledger, base) / PREFIX[prefix]
-            region = f"{fname}/{dlabel}"
+            region = f"{sub_name}/{fname}/{dlabel}"
             try:
                 got = rec.get_substance_used(s, timeframe=fname, unit=unit, destinations=arg)
             except ValueError as e:
@@ -158,11 +162,11 @@ def h_used(h):
             h.require('no-answer-on-net-decrease', h.ge(ledger, 0, h.rs(h.ulp * 100)), region,
                       detail="a net decrease of the destinations must raise ValueError")
             h.require('reported==ledger', h.eq(got, truth, half + h.rs(h.ulp * 10**4)), region,
-                      detail=f"{p['sub']} in {unit}, timeframe {fname}, destinations {dlabel}")
+                      detail=f"{sub_name} in {unit}, timeframe {fname}, destinations {dlabel}")
             reported[(fname, dlabel)] = got
     # additivity over the two consecutive stages
     for dlabel, _ in dest_sets:
         if all((f, dlabel) in reported for f in ('all', 's1', 's2')):
             h.require('stages-add-up', h.eq(reported[('s1', dlabel)] + reported[('s2', dlabel)], reported[('all', dlabel)],
-                                            3 * half + h.rs(h.ulp * 10**4)), dlabel,
+                                            3 * half + h.rs(h.ulp * 10**4)), f"{sub_name}/{dlabel}",
                       detail="amount over s1 + amount over s2 = amount over the whole recipe")
